@@ -113,9 +113,8 @@ class HierarchyFilter(Filter):
         if self.parent_changed:
             # ignore
             pass
-        elif np.all(self.manual):
-            # Do not do anything and remember the events we manually
-            # excluded in case the parent reinserts them.
+        elif np.all(self.manual) and not self._man_root_ids:
+            # Nothing is excluded and nothing is remembered.
             pass
         else:
             # indices from boolean array
